@@ -56,6 +56,10 @@ func (resp *Response) UnmarshalResult(result interface{}) error {
 		// No result
 		return nil
 	}
+	if result == nil {
+		// The caller does not want the result, whatever it is.
+		return nil
+	}
 	return json.Unmarshal(resp.Result, result)
 }
 
